@@ -28,7 +28,8 @@ SYSTEM_COLORS = (  # 18.2
     'InfoBackground InfoText Menu MenuText Scrollbar ThreeDDarkShadow ThreeDFace ThreeDHighlight '
     'ThreeDLightShadow ThreeDShadow Window WindowFrame WindowText'
 ).split()
-_COLOR_IDENTS = {c.lower() for c in COLOR_KEYWORDS} | {c.lower() for c in SYSTEM_COLORS}
+_SYSTEM_LOW = {c.lower() for c in SYSTEM_COLORS}
+_COLOR_IDENTS = set(COLOR_KEYWORDS) | _SYSTEM_LOW
 
 _NUM = r'(?:[0-9]+|[0-9]*\.[0-9]+)'
 _RE_INT = re.compile(r'([+-]?)([0-9]+)\Z')
@@ -82,7 +83,9 @@ def classify(text):
                 return nm, info
         return 'dim-other-unit', info
     if _RE_IDENT.match(text):
-        return 'keyword', {'type': 'ident', 'ident': text.lower()}
+        low = text.lower()
+        kind = 'syscolor' if low in _SYSTEM_LOW else ('color-keyword' if low in COLOR_KEYWORDS else 'keyword')
+        return kind, {'type': 'ident', 'ident': low}
     m = _RE_HASH.match(text)
     if m:
         h = m.group(1)
@@ -222,6 +225,12 @@ def verdict(name, text):
     keywords, types, flags = SIMPLE[name]
     kind, info = classify(text)
     t = info['type']
+    if name == 'cursor' and ',' in text:
+        # [ [<uri> ,]* keyword ]
+        parts = [p.strip(_WS) for p in text.split(',')]
+        if all(classify(p)[0] == 'uri' for p in parts[:-1]) and classify(parts[-1])[1].get('ident') in keywords:
+            return True
+        return False
     if t == 'ident':
         ident = info['ident']
         if name == 'display' and ident == 'run-in':
@@ -298,6 +307,15 @@ def css3_extension(name, text):
             return True
     if name == 'cursor' and info['type'] == 'ident' and info['ident'] in _CSS3_CURSOR:
         return True
+    if name == 'cursor' and ',' in text:
+        # CSS3 UI: [ <uri> [<x> <y>]? , ]* keyword
+        parts = [p.strip(_WS) for p in text.split(',')]
+        last = classify(parts[-1])[1].get('ident')
+        ok = last in keywords or last in _CSS3_CURSOR
+        for p in parts[:-1]:
+            bits = p.split()
+            ok = ok and bits and classify(bits[0])[0] == 'uri' and (len(bits) == 1 or (len(bits) == 3 and all(_RE_NUM.match(b) for b in bits[1:])))
+        return bool(ok)
     if name == 'outline-style' and info['type'] == 'ident' and info['ident'] == 'auto':
         return True
     return False
